@@ -705,6 +705,14 @@ class Facts:
         out = []
         for c in self.known_callers.get(pat, []):
             out.extend(self.by_pat.get(c, []))
+        if not out and "::(lambda" in pat:
+            # a lambda that was handed to an algorithm (std::for_each ...) has no xenium caller; when it is replaced by a plain loop its body now
+            # lives in the enclosing function
+            # ... or, when the lambda moved together with the algorithm call into a newly extracted helper, in that helper's lambda
+            encl = pat[:pat.index("::(lambda")]
+            cls = encl[:encl.rindex("::") + 2] if "::" in encl else encl
+            moved = [f for q, fs in self.by_pat.items() if "::(lambda" in q and q not in self.known_patterns and q.startswith(cls) for f in fs]
+            out.extend(moved if moved else self.by_pat.get(encl, []))
         return out
 
     def vanished_callee(self, name):
